@@ -250,6 +250,18 @@ Theorem c03_detach_compact : forall h p s,
   detach_compact (h ++ 46 :: p ++ 46 :: s) = Ok (h ++ 46 :: 46 :: s).
 Proof. exact detach_compact_segments. Qed.
 
+(* ... for EVERY token with three segments (whatever the payload segment is, e.g. a text
+   that also occurs inside the header or signature segment): segment-wise *)
+Theorem c03_detach_compact_split : forall tok h p s,
+  split_dot tok = [h; p; s] ->
+  exists d, detach_compact tok = Ok d /\ split_dot d = [h; []; s] /\ d = h ++ 46 :: 46 :: s.
+Proof. exact detach_compact_split. Qed.
+
+Example c03_detach_collision :
+  (* payload = header JSON: BASE64URL(payload) is the header segment itself *)
+  detach_compact (asc "eyJhbGciOiJIUzI1NiJ9.eyJhbGciOiJIUzI1NiJ9.c2ln") = Ok (asc "eyJhbGciOiJIUzI1NiJ9..c2ln").
+Proof. vm_compute. reflexivity. Qed.
+
 Theorem c03_detach_json : forall v,
   match v, detach_json v with
   | JFlat _ sg, JFlat p' sg' => p' = None /\ sg' = sg
@@ -308,5 +320,6 @@ Print Assumptions c03_compact_rt.
 Print Assumptions c03_flat_rt.
 Print Assumptions c03_general_rt.
 Print Assumptions c03_detach_compact.
+Print Assumptions c03_detach_compact_split.
 Print Assumptions c03_detach_json.
 Print Assumptions c03_ec_rs_roundtrip.
